@@ -1264,7 +1264,18 @@ func aff5On(m *Model, r *RuleResult, fname, pre string) {
 	} else {
 		r.violation(pre+"y:start", pos, "the first band is at y = 0", "y starts at "+avalString(oc.init))
 	}
-	if outer.dir == 1 && outer.full && strings.HasSuffix(outer.container, ".Layers") && inner.full && inner.container == outer.elem+".Nodes" {
+	// the layer list: g.Layers, or a slice parameter that every caller in the package binds to <graph>.Layers
+	layersOK := strings.HasSuffix(outer.container, ".Layers")
+	if !layersOK {
+		acts := paramActuals(m, res.fd, outer.container)
+		layersOK = len(acts) > 0
+		for _, a := range acts {
+			if !strings.HasSuffix(a, ".Layers") {
+				layersOK = false
+			}
+		}
+	}
+	if outer.dir == 1 && outer.full && layersOK && inner.full && inner.container == outer.elem+".Nodes" {
 		r.holds(pre+"y:layer-order", pos, "bands are stacked in layer order")
 	} else {
 		r.violation(pre+"y:layer-order", pos, "bands are stacked in layer order", fmt.Sprintf("iterates %s (dir %d, full %v) / %s (full %v)", outer.container, outer.dir, outer.full, inner.container, inner.full))
@@ -1503,15 +1514,25 @@ func isExactlySelfLoopTest(cs, ev string) bool {
 
 func runAff8(m *Model, r *RuleResult) {
 	drvName := dispatchCallee(m, "internal/phase2", "LongestPath", "execLongestPath")
-	folName := "followLongestPath"
+	folName, folRecv := "followLongestPath", ""
 	if d := m.SSAFunc("internal/phase2", drvName); d != nil {
 		for _, s := range staticCalls(d, func(c *ssa.Function) bool {
 			return pkgPathOf(c) == pkgPathOf(d) && len(staticCalls(c, func(c2 *ssa.Function) bool { return c2 == c })) > 0
 		}) {
-			folName = s.Common().StaticCallee().Name()
+			fc := s.Common().StaticCallee()
+			folName, folRecv = fc.Name(), ""
+			if rv := fc.Signature.Recv(); rv != nil {
+				t := rv.Type()
+				if pt, ok := t.(*types.Pointer); ok {
+					t = pt.Elem()
+				}
+				if nt, ok := t.(*types.Named); ok {
+					folRecv = nt.Obj().Name()
+				}
+			}
 		}
 	}
-	res := affRun(m, "internal/phase2", "", folName)
+	res := affRun(m, "internal/phase2", folRecv, folName)
 	drv := affRun(m, "internal/phase2", "", drvName)
 	if res == nil || drv == nil {
 		r.undecided("longest-path", "-", "followLongestPath / execLongestPath", "not found")
@@ -1553,13 +1574,38 @@ func runAff8(m *Model, r *RuleResult) {
 			continue
 		}
 		nUpd++
-		want := "max(c:" + hname + ", " + hl.valVar + ".Delta + " + folName + "("
-		if !strings.HasPrefix(s, want) {
-			okRec, why = false, "height is updated as "+s+", expected max(height, h(child) + e.Delta)"
+		// max(height, e.Delta + <recursive call>(... e.To ...)), operands in either order
+		okForm := false
+		if strings.HasPrefix(s, "max(") && strings.HasSuffix(s, ")") {
+			args := splitTop(s[4:len(s)-1], ", ")
+			if len(args) == 2 {
+				other := ""
+				switch "c:" + hname {
+				case args[0]:
+					other = args[1]
+				case args[1]:
+					other = args[0]
+				}
+				terms := splitTop(other, " + ")
+				if len(terms) == 2 {
+					call := ""
+					switch hl.valVar + ".Delta" {
+					case terms[0]:
+						call = terms[1]
+					case terms[1]:
+						call = terms[0]
+					}
+					if strings.HasPrefix(call, folName+"(") || strings.Contains(strings.SplitN(call, "(", 2)[0], "."+folName) {
+						okForm = true
+						if !strings.Contains(call, hl.valVar+".To") {
+							okRec, why = false, "the recursion does not follow the edge to its target"
+						}
+					}
+				}
+			}
 		}
-		// child = the other endpoint of e
-		if !strings.Contains(s, hl.valVar+".To") {
-			okRec, why = false, "the recursion does not follow the edge to its target"
+		if !okForm {
+			okRec, why = false, "height is updated as "+s+", expected max(height, h(child) + e.Delta)"
 		}
 	}
 	if okRec && nUpd >= 1 {
@@ -1572,13 +1618,18 @@ func runAff8(m *Model, r *RuleResult) {
 	for _, p := range res.paths {
 		for _, s := range p.stores {
 			v := avalString(s.val)
-			if strings.HasPrefix(s.target, "height[") || strings.Contains(s.target, "[n]") {
+			if strings.HasSuffix(s.target, "]") {
 				if strings.HasPrefix(v, "final("+hname+")") {
 					okMemo = true
 				}
+				continue
 			}
-			if strings.HasPrefix(s.target, "*") && strings.HasPrefix(v, "max("+s.target+", final("+hname+")") {
-				okMax = true
+			// running maximum: T := max(T, final(height)), T a cell that is not indexed (a pointee or a field)
+			if strings.HasPrefix(v, "max(") && strings.HasSuffix(v, ")") {
+				args := splitTop(v[4:len(v)-1], ", ")
+				if len(args) == 2 && ((args[0] == s.target && strings.HasPrefix(args[1], "final("+hname+")")) || (args[1] == s.target && strings.HasPrefix(args[0], "final("+hname+")"))) {
+					okMax = true
+				}
 			}
 		}
 	}
@@ -1597,11 +1648,14 @@ func runAff8(m *Model, r *RuleResult) {
 		}
 		for _, p := range l.paths {
 			for _, s := range p.stores {
-				if strings.HasPrefix(s.target, "*&") && strings.HasPrefix(avalString(s.val), "max(") {
-					trav = l
-					lname = strings.TrimPrefix(s.target, "*&")
+				if v := avalString(s.val); !strings.HasSuffix(s.target, "]") && strings.HasPrefix(v, "max(") && strings.HasSuffix(v, ")") {
+					args := splitTop(v[4:len(v)-1], ", ")
+					if len(args) == 2 && (args[0] == s.target || args[1] == s.target) && (strings.HasPrefix(args[0], "final(") || strings.HasPrefix(args[1], "final(")) {
+						trav = l
+						lname = strings.TrimPrefix(s.target, "*&")
+					}
 				}
-				if s.target == l.valVar+".Layer" {
+				if l.elem != "" && s.target == l.elem+".Layer" {
 					assign = l
 				}
 			}
@@ -1636,14 +1690,14 @@ func runAff8(m *Model, r *RuleResult) {
 	okL := assign.id > trav.id && assign.pos > trav.pos
 	whyL := "layers are assigned before the traversal is complete"
 	for _, p := range assign.paths {
-		s, _ := storeTo(p, assign.valVar+".Layer")
+		s, _ := storeTo(p, assign.elem+".Layer")
 		v, ok := s.val.(lin)
 		if !ok || len(v.c) != 2 || v.k != 0 || v.c[lname] != 1 {
 			okL, whyL = false, "stored layer is "+avalString(s.val)
 			continue
 		}
 		for a, co := range v.c {
-			if a != lname && !(co == -1 && strings.HasSuffix(a, "["+assign.valVar+"]")) {
+			if a != lname && !(co == -1 && strings.HasSuffix(a, "["+assign.elem+"]")) {
 				okL, whyL = false, "stored layer is "+avalString(s.val)
 			}
 		}
@@ -2053,4 +2107,39 @@ func mustInt(s string) int {
 	n := 0
 	fmt.Sscanf(s, "%d", &n)
 	return n
+}
+
+// paramActuals: when name is a parameter of the function declared by fd, the argument expressions bound to it at the call
+// sites of that function inside its package (canonical strings); nil when name is not a parameter or there is no call.
+func paramActuals(m *Model, fd *ast.FuncDecl, name string) []string {
+	idx, k := -1, 0
+	for _, fl := range fd.Type.Params.List {
+		for _, nm := range fl.Names {
+			if nm.Name == name {
+				idx = k
+			}
+			k++
+		}
+	}
+	if idx < 0 {
+		return nil
+	}
+	var out []string
+	for _, p := range m.Pkgs {
+		if p.TypesInfo == nil || p.TypesInfo.Defs[fd.Name] == nil {
+			continue
+		}
+		obj := p.TypesInfo.Defs[fd.Name]
+		for _, f := range p.Syntax {
+			ast.Inspect(f, func(n ast.Node) bool {
+				call, ok := n.(*ast.CallExpr)
+				if !ok || calleeObj(p.TypesInfo, call) != obj || idx >= len(call.Args) {
+					return true
+				}
+				out = append(out, strings.ReplaceAll(types.ExprString(call.Args[idx]), " ", ""))
+				return true
+			})
+		}
+	}
+	return out
 }
